@@ -15,11 +15,15 @@ def gen(rng, tier):
     n = 1500 if tier == "quick" else 50000
     out = []
     for _ in range(n):
-        st = laylib.setup(rng, mode=rng.choice([0, 0, 1, 2, 3]), popts=True, relative=rng.random() < 0.2)
+        rel = rng.random() < 0.2
+        st = laylib.setup(rng, mode=rng.choice([0, 0, 1, 2, 3]), popts=True, relative=rel)
         if rng.random() < 0.2:
             # one file is malformed as well: a file the callback rejects must not even be parsed
             st["cmds"] = laylib.inject_bad_line(rng, st["cmds"])
         files = laylib.files_of(st["cmds"])
+        # with names relative to the working directory (the root of the tree) the callback is asked about relative names:
+        # the names to reject are spelled the same way
+        if rel: files = [p.lstrip(b"/") for p in files]
         r = rng.random()
         if r < 0.25 or not files: pol = "cb reject"
         elif r < 0.8: pol = "cb reject " + ",".join(enc(p.replace(b"/r/", b"/r//", 1) if st["mode"] in (1, 3) and rng.random() < 0.8 else p)
@@ -41,7 +45,7 @@ def gen(rng, tier):
         if st["hist"]:
             cmds.append(st["hist"]); obs.append(True)
         if files and rng.random() < 0.3:
-            cmds.append("readfile 1 %s x3d x23" % enc(rng.choice(files))); obs.append(True)
+            cmds.append("readfile 1 %s x3d x23" % enc(rng.choice(files))); obs.append(True)      # a single file, by the same (absolute or relative) name
         out.append(Scenario(cmds, obs, tags=("mode%d" % st["mode"],)))
     return out
 
